@@ -46,6 +46,10 @@ class RecursiveChecker(ConversionsVisitor[Conv, Any], ObjectVisitor[Any]):
         self._all_recursive: Set[RecursionKey] = set()
         self._guard: List[RecursionKey] = []
         self._guard_indices: Dict[RecursionKey, int] = {}
+        # keys of the guard reached (through a cycle) by the keys visited during
+        # this analysis: a key already visited can be met again while some keys it
+        # reaches are still in the guard, which closes a new cycle
+        self._reached: Dict[RecursionKey, Set[RecursionKey]] = {}
 
     def any(self):
         pass
@@ -82,14 +86,28 @@ class RecursiveChecker(ConversionsVisitor[Conv, Any], ObjectVisitor[Any]):
         with suppress(Unsupported):
             super().unsupported(tp)
 
+    def _cycle(self, rec_key: RecursionKey):
+        # all the keys of the guard from rec_key are in a cycle, and reach rec_key
+        recursive = self._guard[self._guard_indices[rec_key] :]
+        self._recursive.setdefault(rec_key, set()).update(recursive)
+        self._all_recursive.update(recursive)
+        for key in recursive:
+            self._reached.setdefault(key, set()).add(rec_key)
+
     def visit(self, tp: AnyType):
         rec_key = (tp, self._conversion)
         if rec_key in self._cache:
-            pass
+            # follow (transitively) the keys reached by this already visited key
+            todo, seen = [rec_key], {rec_key}
+            while todo:
+                for reached in self._reached.get(todo.pop(), ()):
+                    if reached in self._guard_indices:
+                        self._cycle(reached)
+                    elif reached not in seen:
+                        seen.add(reached)
+                        todo.append(reached)
         elif rec_key in self._guard_indices:
-            recursive = self._guard[self._guard_indices[rec_key] :]
-            self._recursive.setdefault(rec_key, set()).update(recursive)
-            self._all_recursive.update(recursive)
+            self._cycle(rec_key)
         else:
             self._guard_indices[rec_key] = len(self._guard)
             self._guard.append(rec_key)
